@@ -368,3 +368,201 @@ Example c04_byte_example :
   = (Ok [mkbrec c04_body 3 4456472; mkbrec c04_body 4456472 7733248],
      [Ok [c04_body]; Ok [c04_body]; Ok []]).
 Proof. vm_compute. reflexivity. Qed.
+
+(* ==== fifth deepening: index-built chunk lists are aligned to record boundaries, and the whole
+   region query over the BYTES of a BAM file.  Models: NV.Index.ByteIndex (bam/fs/index.rs's loop
+   and Reader::query over the file's frames, the fields decoded from the record bytes),
+   NV.Index.ByteIndexLazy (decoder instance: C05's lazy accessors); proofs in
+   NV.Index.AlignedProofs, NV.Index.ByteIndexProofs. ==== *)
+From NV Require Import Index.AlignedProofs Index.ByteIndex Index.ByteIndexLazy Index.ByteIndexProofs.
+
+(* every chunk stored in any bin of the index that ReferenceSequence::update / Bin::add_chunk build
+   from a file in offset order starts at the offset before some record of the file, ends at the
+   offset after some record of the file, and is not empty *)
+Theorem c04_index_chunks_aligned :
+  forall ms d k file, offsets_ordered 0 file ->
+    forall id cs c, In (id, cs) (bins (build_ref ms d k file)) -> In c cs ->
+      alr (fun x => In x file) c.
+Proof. exact build_ref_aligned. Qed.
+Print Assumptions c04_index_chunks_aligned.
+
+(* the same shape survives Index::query (filter by min_offset, sort, merge loop) *)
+Theorem c04_optimize_chunks_aligned :
+  forall (Ps Pe : N -> Prop) cs m, Forall (alc Ps Pe) cs -> Forall (alc Ps Pe) (optimize_chunks cs m).
+Proof. exact optimize_chunks_alc. Qed.
+Print Assumptions c04_optimize_chunks_aligned.
+
+(* format level, any format (BAM / VCF / BCF records with their offsets): every chunk the index
+   query returns for the index the indexing loop built starts where a record of the file starts
+   and ends where THAT OR A LATER record ends -- the `aligned` premise of
+   c04_byte_query_reads_chunks is a theorem about the index model *)
+Theorem c04_query_chunks_aligned :
+  forall (A : Type) (oa ob : A -> N) (ctx : A -> ctxr) kd ms d l k qs qe cs,
+    ordered_f A oa ob 0 l ->
+    query kd ms d (build_ref ms d k (placed A ctx oa ob l)) qs qe = Some cs ->
+    Forall (aligned_f A oa ob l) cs.
+Proof. exact fmt_query_chunks_aligned. Qed.
+Print Assumptions c04_query_chunks_aligned.
+
+(* ... so no chunk end exceeds the offset after the last record: the hypothesis `chunk ends <= EOF`
+   of c04_chunk_read_eof_eq is discharged -- reading index-built chunk lists the way the real
+   csi::io::Query does (stop for good at a chunk end beyond the data) is the reading the
+   query = scan theorems use *)
+Theorem c04_query_chunks_within_data :
+  forall (A : Type) (oa ob : A -> N) (ctx : A -> ctxr) kd ms d l k qs qe cs d0,
+    ordered_f A oa ob 0 l ->
+    query kd ms d (build_ref ms d k (placed A ctx oa ob l)) qs qe = Some cs ->
+    Forall (fun c => cend c <= ob (last l d0)) cs /\
+    chunk_read_eof A oa (ob (last l d0)) cs l = chunk_read_f A oa cs l.
+Proof. exact fmt_query_chunks_within_data. Qed.
+Print Assumptions c04_query_chunks_within_data.
+
+(* THE BYTE-LEVEL MAIN THEOREM.  For every BGZF file (frames f, any block layout, empty blocks
+   anywhere) whose data from flat offset o0 on -- where a reader st0 of C02's invariant stands,
+   e.g. after the header -- is BAM records `bodies` (4 size bytes + body each), every decoder
+   `dec` of the fields the code looks at, every read_to_end schedule bsz, every geometry and both
+   index kinds: when every record decodes, a read with a reference id has a POS, the spans lie
+   within the geometry and the indexer accepts the file (reference ids never go down, no
+   overflow), then
+     - the loop of bam::fs::index over the bytes succeeds and yields the records with their
+       virtual positions (map br_body L = bodies), and
+     - on a reader in ANY state of the invariant (the one the loop left, or after earlier
+       queries), for every list of region queries (reference in the header, bounds in range or
+       missing) run one after the other: Reader::query over the bytes -- Index::query on the index
+       built from the bytes, csi::io::Query's seeks and reads, the record reader, the `intersects`
+       filter -- returns for each region exactly the records of the stream that a scan keeps:
+       those on the reference whose span POS .. POS + sum(M,D,N,=,X) - 1 (POS when 0) meets the
+       region, in file order, nothing twice, nothing else. *)
+Theorem c04_byte_bam_query_equals_scan :
+  forall dec bsz f, wf f -> total_csize f <= MAX_COMPRESSED_POSITION ->
+  forall st0 o0 bodies ms d nref,
+    Rel f st0 o0 -> skipn (N.to_nat o0) (concat (chunks f)) = stream bodies ->
+    Forall rec_ok bodies -> Forall (body_ok dec ms d) bodies ->
+    index_scan (list N) (fun b => dec_ctx (dec b)) 0 bodies = None ->
+    exists st1 L,
+      index_from dec bsz f st0 = (st1, IxOk L) /\ map br_body L = bodies /\
+      Rel f st1 (total_dlen f) /\
+      forall kd qs st o, Forall (query_ok ms d nref) qs -> Rel f st o ->
+        byte_bam_queries dec bsz query f st kd ms d nref (built dec ms d nref L) qs
+        = map (fun q => BRead (Ok (filter (body_scan_hit dec (fst q) (snd q)) bodies))) qs.
+Proof. exact byte_bam_index_query_equals_scan. Qed.
+Print Assumptions c04_byte_bam_query_equals_scan.
+
+(* the form the correspondence check executes (query_fast) is the modelled one *)
+Theorem c04_byte_bam_session_fast_eq : forall dec bsz f hl kd ms d nref qs,
+  byte_bam_session dec bsz query_fast f hl kd ms d nref qs = byte_bam_session dec bsz query f hl kd ms d nref qs.
+Proof. exact byte_bam_session_fast_eq. Qed.
+Print Assumptions c04_byte_bam_session_fast_eq.
+
+(* non-vacuity, with C05's lazy accessors as the decoder: a 3-byte header and two reads on
+   reference 0 (POS 100 and POS 5000, CIGAR 10M), the first cut by a block boundary with an empty
+   block between; the index is built from the bytes, then five region queries on the same reader *)
+Definition c04_placed (pos0 : N) : list N :=
+  [0;0;0;0; pos0 mod 256; pos0 / 256;0;0; 2; 255; 72;18; 1;0; 0;0; 0;0;0;0; 255;255;255;255;
+   255;255;255;255; 0;0;0;0; 42;0; 160;0;0;0].
+Definition c04_bytes_file2 : file :=
+  [mkFrame 40 ([1;2;3] ++ [38;0;0;0] ++ firstn 10 (c04_placed 99)); mkFrame 28 [];
+   mkFrame 50 (skipn 10 (c04_placed 99) ++ [38;0;0;0] ++ c04_placed 4999); mkFrame 28 []].
+Example c04_byte_bam_example :
+  lazy_dec (c04_placed 99) = mkdec (Some (Some 0)) (Some (Some 100)) (Some [(0, 10)]) false /\
+  byte_bam_session_x c04_bytes_file2 3 Linear 14 5 1
+    [(0, (Some 105, Some 200)); (0, (None, None)); (0, (Some 110, Some 4999)); (1, (None, None));
+     (0, (Some 4000, None))]
+  = (IxOk [mkbrec (c04_placed 99) 3 4456476; mkbrec (c04_placed 4999) 4456476 7733248],
+     [BRead (Ok [c04_placed 99]); BRead (Ok [c04_placed 99; c04_placed 4999]); BRead (Ok []);
+      BInvalid; BRead (Ok [c04_placed 4999])]).
+Proof. split; vm_compute; reflexivity. Qed.
+
+(* ==== format-level and byte-level via-file: "... or after being written to and read from an
+   index file".  The index the indexing loop built is written with the BAI / CSI writer model and
+   read back with the reader model (NV.Index.Layout / CsiLayout, C17); the region query with the
+   index that was read back gives the in-memory answers -- proofs in NV.Index.FormatsViaFileProofs. ==== *)
+From NV Require Import Index.FormatsViaFileProofs.
+
+(* BAM records (reference id, POS, CIGAR, flag) + BAI file *)
+Theorem c04_bam_query_via_bai_file :
+  forall ms d nref l ixs meta unplaced k iv,
+    let i := built_bai ms d (placed bam_rec bam_ctx b_a b_b l) meta (length ixs) unplaced in
+    bai_ok i ->
+    ordered_f bam_rec b_a b_b 0 l -> Forall bam_pos_ok l ->
+    spans_ok ms d (placed bam_rec bam_ctx b_a b_b l) ->
+    bam_index ms d nref l = Some ixs -> (N.to_nat k < length ixs)%nat ->
+    region_ok ms d iv ->
+    exists i', read_bai (w_bai i) = Some i' /\
+      bam_query Linear ms d (map bref_refidx (bi_refs i')) l k iv = QOk (bam_scan l k iv).
+Proof. exact bam_query_via_bai_file. Qed.
+Print Assumptions c04_bam_query_via_bai_file.
+
+(* BAM records + CSI file (every geometry): the loffsets that read back differ, the answers do not *)
+Theorem c04_bam_query_via_csi_file :
+  forall ms d nref l ixs hdr meta unplaced k iv,
+    let i := built_csi ms d (placed bam_rec bam_ctx b_a b_b l) hdr meta (length ixs) unplaced in
+    csi_ok i ->
+    ordered_f bam_rec b_a b_b 0 l -> Forall bam_pos_ok l ->
+    spans_ok ms d (placed bam_rec bam_ctx b_a b_b l) ->
+    bam_index ms d nref l = Some ixs -> (N.to_nat k < length ixs)%nat ->
+    region_ok ms d iv ->
+    exists i', w_csi i = WOk (w_csi_bytes i) /\ read_csi (w_csi_bytes i) = Some i' /\
+      bam_query Binned ms d (map cref_refidx (ci_refs i')) l k iv = QOk (bam_scan l k iv).
+Proof. exact bam_query_via_csi_file. Qed.
+Print Assumptions c04_bam_query_via_csi_file.
+
+(* any format (BAM, VCF, BCF records): Reader::query with the index read back from its BAI-layout
+   or CSI file = Reader::query with the in-memory index, so c04_vcf_query_equals_scan(_44,_45) hold
+   through the index file as well *)
+Theorem c04_fmt_query_via_index_file :
+  forall (A : Type) ctx oa ob hit ms d nref (l : list A) ixs k iv,
+    fmt_index A ctx oa ob ms d nref l = Some ixs ->
+    let file := placed A ctx oa ob l in
+    (forall meta unplaced, let i := built_bai ms d file meta (length ixs) unplaced in bai_ok i ->
+       exists i', read_bai (w_bai i) = Some i' /\
+         fmt_query A oa hit Linear ms d (map bref_refidx (bi_refs i')) l k iv
+         = fmt_query A oa hit Linear ms d ixs l k iv) /\
+    (forall hdr meta unplaced, let i := built_csi ms d file hdr meta (length ixs) unplaced in
+       csi_ok i -> spans_ok ms d file ->
+       exists i', w_csi i = WOk (w_csi_bytes i) /\ read_csi (w_csi_bytes i) = Some i' /\
+         fmt_query A oa hit Binned ms d (map cref_refidx (ci_refs i')) l k iv
+         = fmt_query A oa hit Binned ms d ixs l k iv).
+Proof. exact fmt_query_via_index_file. Qed.
+Print Assumptions c04_fmt_query_via_index_file.
+
+(* BYTE LEVEL via file: the index built from the BAM bytes by bam::fs::index's loop, written to a
+   BAI or CSI file, read back, then Reader::query over the BAM bytes: the scan's answer *)
+Theorem c04_byte_bam_query_via_index_file :
+  forall dec bsz f, wf f -> total_csize f <= MAX_COMPRESSED_POSITION ->
+  forall st0 o0 bodies ms d nref,
+    Rel f st0 o0 -> skipn (N.to_nat o0) (concat (chunks f)) = stream bodies ->
+    Forall rec_ok bodies -> Forall (body_ok dec ms d) bodies ->
+    index_scan (list N) (fun b => dec_ctx (dec b)) 0 bodies = None ->
+    exists st1 L,
+      index_from dec bsz f st0 = (st1, IxOk L) /\ map br_body L = bodies /\
+      let file := placed brec (bctx dec) br_a br_b L in
+      let n := length (built dec ms d nref L) in
+      let answer := fun qs : list (N * region) =>
+        map (fun q => BRead (NV.Bgzf.Vpos.Ok (List.filter (body_scan_hit dec (fst q) (snd q)) bodies))) qs in
+      (forall meta unplaced, let i := built_bai ms d file meta n unplaced in bai_ok i ->
+         exists i', read_bai (w_bai i) = Some i' /\
+           forall qs st o, Forall (query_ok ms d nref) qs -> Rel f st o ->
+             byte_bam_queries dec bsz query f st Linear ms d nref (map bref_refidx (bi_refs i')) qs = answer qs) /\
+      (forall hdr meta unplaced, let i := built_csi ms d file hdr meta n unplaced in csi_ok i ->
+         exists i', w_csi i = WOk (w_csi_bytes i) /\ read_csi (w_csi_bytes i) = Some i' /\
+           forall qs st o, Forall (query_ok ms d nref) qs -> Rel f st o ->
+             byte_bam_queries dec bsz query f st Binned ms d nref (map cref_refidx (ci_refs i')) qs = answer qs).
+Proof. exact byte_bam_query_via_index_file. Qed.
+Print Assumptions c04_byte_bam_query_via_index_file.
+
+(* non-vacuity of the via-file hypotheses: the BAI index of c04_bam_file (two references, the
+   unplaced count) satisfies bai_ok, and the query with what reads back answers as the scan *)
+Example c04_bam_via_bai_example :
+  let i := built_bai 14 5 (placed bam_rec bam_ctx b_a b_b c04_bam_file) (fun _ => None) 2 (Some 2) in
+  bai_ok i /\
+  bam_query Linear 14 5 (map bref_refidx (bi_refs i)) c04_bam_file 0 (Some 320000, None)
+    = QOk [mkbam (Some 0) (Some 20000) [(4, 5); (0, 50); (3, 300000); (0, 51)] false 100 200].
+Proof.
+  cbv zeta. split; [|vm_compute; reflexivity].
+  unfold bai_ok. split; [vm_compute; reflexivity|]. split; [|vm_compute; reflexivity].
+  set (r := bi_refs _). vm_compute in r. subst r.
+  assert (Hm : bai_metadata_id = 37450) by (vm_compute; reflexivity).
+  repeat constructor; cbn [fst snd length map br_bins br_meta br_intervals In]; unfold u64, u32;
+    rewrite ?Hm; try Lia.lia; try (intuition discriminate).
+Qed.
